@@ -38,9 +38,18 @@ enum Edge {
     InVariantPayload,
     InIndex,
     InLambdaCalledAtOnce,
+    InCalledFnLoopCondition,
+    InCalledFnBlock,
+    InCalledFnEarlyRet,
+    InCalledClosureOfFn,
+    /// WRAPPED[k] inside a function that the initialiser calls
+    ViaFn(u8),
 }
 
 const KINDS: [Edge; 6] = [Edge::Read, Edge::ReadInCalledFn, Edge::ReadInStoredFn, Edge::AssignInCalledFn, Edge::OpAssignInCalledFn, Edge::BlobField];
+/// expression-level wrapped forms that are also tried inside a called function (ViaFn)
+const VIA_FN: [u8; 13] = [0, 1, 2, 3, 4, 5, 6, 7, 8, 9, 10, 15, 16];
+const STMT_IN_FN: [Edge; 4] = [Edge::InCalledFnLoopCondition, Edge::InCalledFnBlock, Edge::InCalledFnEarlyRet, Edge::InCalledClosureOfFn];
 const WRAPPED: [Edge; 18] = [
     Edge::InThen, Edge::InElse, Edge::InCondition, Edge::InCaseScrutinee, Edge::InCaseArm, Edge::InCaseElse, Edge::InTuple, Edge::InList, Edge::InCallArgument,
     Edge::InUnary, Edge::InAndRhs, Edge::InCalledFnElseBranch, Edge::InCalledFnLoop, Edge::InCalledFnNestedCall, Edge::ThroughFunctionAlias, Edge::InVariantPayload,
@@ -58,19 +67,10 @@ struct Built {
     nglobals: usize,
 }
 
-fn build(n: usize, edges: &[(usize, usize, Edge)]) -> Built {
-    let mut helpers = Vec::new();
-    let mut main = vec![Top::Blob { name: "P".into(), fields: vec![("x".into(), Ty::Int)] }];
-    if edges.iter().any(|e| WRAPPED.contains(&e.2)) {
-        helpers.push(Top::Enum { name: "V".into(), variants: vec![("A".into(), Some(Ty::Int)), ("B".into(), None)] });
-    }
-    for i in 0..n {
-        let mut init = int(i as i64 + 1);
-        for (a, b, k) in edges.iter().filter(|e| e.0 == i) {
-            let _ = a;
-            let j = *b;
-            let term = match k {
-                Edge::None => continue,
+/// the expression that carries the edge i -> j (may add helper functions)
+fn term_for(k: Edge, i: usize, j: usize, helpers: &mut Vec<Top>) -> Option<Expr> {
+    Some(match k {
+                Edge::None => return None,
                 Edge::Read => var(&g(j)),
                 Edge::ReadInCalledFn => {
                     let name = format!("r{}{}", i, j);
@@ -133,6 +133,50 @@ fn build(n: usize, edges: &[(usize, usize, Edge)]) -> Built {
                 Edge::InVariantPayload => Expr::Case(Box::new(Expr::Variant("V".into(), "A".into(), Some(Box::new(bin(BinOp::Add, var(&g(j)), int(2)))))), vec![CaseArm { variant: "A".into(), bind: Some("q".into()), body: vec![Stmt::Expr(var("q"))] }], Some(vec![Stmt::Expr(int(0))])),
                 Edge::InIndex => Expr::Index(Box::new(Expr::Tuple(vec![var(&g(j)), int(0)])), 0),
                 Edge::InLambdaCalledAtOnce => call(Expr::Paren(Box::new(lambda(vec![], RetAnn::Ty(Ty::Int), vec![Stmt::Expr(var(&g(j)))]))), vec![]),
+                    Edge::ViaFn(w) => {
+            // the wrapped read sits in a function the initialiser calls
+            let inner = term_for(WRAPPED[w as usize], i, j, helpers)?;
+            let name = format!("vf{}{}", i, j);
+            helpers.push(top_fn(&name, vec![], RetAnn::Ty(Ty::Int), vec![Stmt::Expr(inner)]));
+            callv(&name, vec![])
+        }
+        Edge::InCalledFnLoopCondition => {
+            let name = format!("lc{}{}", i, j);
+            helpers.push(top_fn(&name, vec![], RetAnn::Ty(Ty::Int), vec![def("acc", int(0)), Stmt::Loop(Some(bin(BinOp::Lt, var("acc"), var(&g(j)))), vec![op_assign("acc", BinOp::Add, int(1000))]), Stmt::Expr(var("acc"))]));
+            callv(&name, vec![])
+        }
+        Edge::InCalledFnBlock => {
+            let name = format!("bk{}{}", i, j);
+            helpers.push(top_fn(&name, vec![], RetAnn::Ty(Ty::Int), vec![def("acc", int(0)), Stmt::Block(vec![Stmt::Block(vec![assign("acc", var(&g(j)))])]), Stmt::Expr(var("acc"))]));
+            callv(&name, vec![])
+        }
+        Edge::InCalledFnEarlyRet => {
+            let name = format!("er{}{}", i, j);
+            helpers.push(top_fn(&name, vec![], RetAnn::Ty(Ty::Int), vec![Stmt::Expr(if_e(Expr::Bool(true), vec![Stmt::Ret(Some(var(&g(j))))], None)), Stmt::Expr(int(0))]));
+            callv(&name, vec![])
+        }
+        Edge::InCalledClosureOfFn => {
+            let name = format!("cl{}{}", i, j);
+            helpers.push(top_fn(&name, vec![], RetAnn::Ty(Ty::Int), vec![cdef("inner", lambda(vec![], RetAnn::Ty(Ty::Int), vec![Stmt::Expr(var(&g(j)))])), Stmt::Expr(callv("inner", vec![]))]));
+            callv(&name, vec![])
+        }
+    })
+}
+
+fn build(n: usize, edges: &[(usize, usize, Edge)]) -> Built {
+    let mut helpers = Vec::new();
+    let mut main = vec![Top::Blob { name: "P".into(), fields: vec![("x".into(), Ty::Int)] }];
+    if edges.iter().any(|e| !KINDS.contains(&e.2)) {
+        helpers.push(Top::Enum { name: "V".into(), variants: vec![("A".into(), Some(Ty::Int)), ("B".into(), None)] });
+    }
+    for i in 0..n {
+        let mut init = int(i as i64 + 1);
+        for (a, b, k) in edges.iter().filter(|e| e.0 == i) {
+            let _ = a;
+            let j = *b;
+            let term = match term_for(*k, i, j, &mut helpers) {
+                Some(t) => t,
+                None => continue,
             };
             init = bin(BinOp::Add, init, term);
         }
@@ -304,7 +348,10 @@ fn labelings(n: usize, max_edges: usize) -> Vec<Labeling> {
     rec(&pairs, 0, max_edges, &mut Vec::new(), n, &mut out);
     // every wrapped read alone, forwards and backwards, and combined with one plain read that closes
     // or does not close a cycle
-    for k in WRAPPED {
+    let mut wrapped: Vec<Edge> = WRAPPED.to_vec();
+    wrapped.extend(STMT_IN_FN.iter().copied());
+    wrapped.extend(VIA_FN.iter().map(|w| Edge::ViaFn(*w)));
+    for k in wrapped {
         for (a, b) in &pairs {
             out.push(Labeling { n, edges: vec![(*a, *b, k)] });
             for (c, d) in &pairs {
@@ -440,7 +487,7 @@ pub fn run(run: &mut Run) {
             let files = files_json(text);
             acc.fail(Failure { sig: sig.into(), preds, detail, case: json!({"engine": "c11", "files": files, "expected": outcomes.first()}), size: lab.edges.len() * 1000 + text.len() });
         };
-        let kinds: Vec<String> = lab.edges.iter().map(|e| format!("{:?}", e.2)).collect();
+        let kinds: Vec<String> = lab.edges.iter().map(|e| match e.2 { Edge::ViaFn(w) => format!("ViaFn({:?})", WRAPPED[w as usize]), k => format!("{:?}", k) }).collect();
         let mut preds: Vec<String> = vec![];
         if lab.edges.iter().any(|e| matches!(e.2, Edge::AssignInCalledFn | Edge::OpAssignInCalledFn)) {
             preds.push("initialiser-calls-function-that-assigns-another-global".into());
@@ -490,8 +537,8 @@ pub fn run(run: &mut Run) {
     });
     run.stats = Stats::merge_all(accs);
     entry_family(&mut run.stats);
-    run.rule = "programs with 3 (thorough: also 4) mutable globals whose initialisers are related by up to k edges, each edge one of: read, read inside a called function, read inside a function that is only stored, assignment / compound assignment inside a called function, blob literal field (up to k edges), or a read wrapped in one of 18 further forms (then / else / condition, case scrutinee / arm / else, tuple, list, call argument, unary, and-operand, else-branch / loop / nested call inside a called function, function alias, variant payload, index, immediately called lambda; alone and combined with one plain read); every permutation of the top-level statements (blob declaration, globals, start) x helper functions before / after, plus the same program with one global moved to an imported file (cyclic import) under every order of that file and a sample of main's orders; plus a three-file project whose modules define their own `start` and `g` under every order of each file's statements (4! x 3! x 4! orders); non-trivial = every labelling that is not inherently order-dependent; distinct by edge labelling".into();
-    run.bounds = json!({"globals": if thorough {"3 with <=3 edges, 4 with <=2 edges"} else {"3 with <=2 edges"}, "labelings": labs.len(), "edge_kinds": KINDS.iter().chain(WRAPPED.iter()).map(|k| format!("{:?}", k)).collect::<Vec<_>>()});
+    run.rule = "programs with 3 (thorough: also 4) mutable globals whose initialisers are related by up to k edges, each edge one of: read, read inside a called function, read inside a function that is only stored, assignment / compound assignment inside a called function, blob literal field (up to k edges), or a read wrapped in one of 35 further forms (then / else / condition, case scrutinee / arm / else, tuple, list, call argument, unary, and-operand, variant payload, index, immediately called lambda - each directly in the initialiser and inside a function it calls; else-branch / loop body / loop condition / nested block / early ret / inner closure / nested call inside a called function, function alias; alone and combined with one plain read); every permutation of the top-level statements (blob declaration, globals, start) x helper functions before / after, plus the same program with one global moved to an imported file (cyclic import) under every order of that file and a sample of main's orders; plus a three-file project whose modules define their own `start` and `g` under every order of each file's statements (4! x 3! x 4! orders); non-trivial = every labelling that is not inherently order-dependent; distinct by edge labelling".into();
+    run.bounds = json!({"globals": if thorough {"3 with <=3 edges, 4 with <=2 edges"} else {"3 with <=2 edges"}, "labelings": labs.len(), "edge_kinds": KINDS.iter().chain(WRAPPED.iter()).chain(STMT_IN_FN.iter()).map(|k| format!("{:?}", k)).chain(VIA_FN.iter().map(|w| format!("ViaFn({:?})", WRAPPED[*w as usize]))).collect::<Vec<_>>()});
     run.assumptions = vec![
         "reference: RefSylt under every order of the value globals; orders that read or assign an uninitialised global are invalid; if the valid orders disagree the program is inherently order-dependent and excluded; if no order is valid the initialisers are cyclic".into(),
         "a consistent rejection of a program that has a valid order (conservative dependency analysis) is accepted".into(),
